@@ -472,8 +472,14 @@ func builtinLoadString(env *LEnv, args *LVal) *LVal {
 	// share the current lexical environment.  The loaded source will share a
 	// stack but the stack frame TROBlock will prevent tail recursion
 	// optimization from unwinding the stack to/beyond this point.
+	//
+	// The root environment does not carry this evaluation's context (call
+	// bridges it onto the environment the builtin was called with), so it is
+	// passed on explicitly: the loaded code stays under the caller's
+	// cancellation and deadline also when load-string is reached from inside
+	// a function body.
 	env.Runtime.Stack.Top().TROBlock = true
-	v := env.root().LoadString(_name, source.Str)
+	v := env.root().LoadStringContext(env.evalCtx, _name, source.Str)
 	if v.Type == LError && v.CallStack() == nil {
 		v.SetCallStack(env.Runtime.Stack.Copy())
 	}
@@ -500,8 +506,9 @@ func builtinLoadBytes(env *LEnv, args *LVal) *LVal {
 	// share the current lexical environment.  The loaded source will share a
 	// stack but the stack frame TROBlock will prevent tail recursion
 	// optimization from unwinding the stack to/beyond this point.
+	// See builtinLoadString for the context.
 	env.Runtime.Stack.Top().TROBlock = true
-	v := env.root().Load(_name, bytes.NewReader(source.Bytes()))
+	v := env.root().LoadContext(env.evalCtx, _name, bytes.NewReader(source.Bytes()))
 	if v.Type == LError && v.CallStack() == nil {
 		v.SetCallStack(env.Runtime.Stack.Copy())
 	}
@@ -518,8 +525,9 @@ func builtinLoadFile(env *LEnv, args *LVal) *LVal {
 	// share the current lexical environment.  The loaded source will share a
 	// stack but the stack frame TROBlock will prevent tail recursion
 	// optimization from unwinding the stack to/beyond this point.
+	// See builtinLoadString for the context.
 	env.Runtime.Stack.Top().TROBlock = true
-	v := env.root().LoadFile(loc.Str)
+	v := env.root().LoadFileContext(env.evalCtx, loc.Str)
 	if v.Type == LError && v.CallStack() == nil {
 		v.SetCallStack(env.Runtime.Stack.Copy())
 	}
